@@ -1129,6 +1129,16 @@ func (e *Engine) fieldAddr(st *State, fr *Frame, i *ssa.FieldAddr) Val {
 		return PtrElemH{S: p.S, Idx: p.Idx, Path: append(append([]int{}, p.Path...), i.Field)}
 	case PtrElem:
 		return PtrElemH{S: p.S, Idx: p.Idx, Path: []int{i.Field}}
+	case NilV:
+		pt, _ := i.X.Type().Underlying().(*types.Pointer)
+		if st.spec && pt != nil {
+			// specification code reads are total: a nil pointer denotes the object at reference 0
+			return PtrHeap{Ref: BVu(0, 64), Root: pt.Elem(), Path: []int{i.Field}}
+		}
+		e.oblige(st, "safe:nil", tFalse, "nil dereference")
+		if pt != nil {
+			return PtrHeap{Ref: BVu(0, 64), Root: pt.Elem(), Path: []int{i.Field}}
+		}
 	}
 	fail("fieldaddr on %T", x)
 	return nil
